@@ -167,6 +167,23 @@ class BTree:
         return "BTree" + repr(self.items())
 
 
+class HMap:
+    """HashMap with concrete keys (ints, strings, tuples); iteration order is deliberately unavailable"""
+    def __init__(self):
+        self.d = {}
+
+    @staticmethod
+    def key(k):
+        if isinstance(k, list):
+            return tuple(k)
+        if isinstance(k, (int, str, tuple)) and not isinstance(k, bool):
+            return k
+        raise Unsupported(f"abstract HashMap key {k!r}")
+
+    def __repr__(self):
+        return "HMap" + repr(self.d)
+
+
 class Ref:
     """a reference to one element of a list (for `for x in &mut slice { *x = .. }`)"""
     __slots__ = ("lst", "i")
@@ -310,6 +327,9 @@ class Mini:
                     return False
                 return all(self.bind(sp, sv, env) for sp, sv in zip(pat[2], v[2]))
             if isinstance(v, tuple) and v and v[0] == "struct" and t == "ps":
+                a, b = self.canon(v[1]), self.canon(pat[1])
+                if a != b and a.rsplit("::", 1)[0] == b.rsplit("::", 1)[0] and not a.startswith("Self") and not b.startswith("Self"):
+                    return False  # another struct-like variant of the same enum
                 return all(self.bind(sp, v[2][fn], env) for fn, sp in pat[2])
             if isinstance(v, tuple) and v and v[0] == "variant":
                 return False
@@ -507,6 +527,8 @@ class Mini:
                     return float(n[2].replace("_", "").replace("f32", "").replace("f64", ""))
                 except ValueError:
                     pass
+            if n[1] == "str":
+                return n[2]
             return ("lit", n[2])
         if t == "local":
             v = self.lookup(env, n[1])
@@ -564,6 +586,8 @@ class Mini:
         if t == "field":
             b = self.ev(n[1], env)
             if isinstance(b, tuple) and b and b[0] == "struct":
+                if n[2] not in b[2]:
+                    raise Unsupported(f"field {n[2]} of {b[1]} not modelled")
                 return b[2][n[2]]
             if isinstance(b, tuple) and n[2].isdigit():
                 return b[int(n[2])]
@@ -819,6 +843,8 @@ class Mini:
             return ("rangeincl", args[0], args[1])
         if p.startswith("std::collections::btree::map::BTreeMap") and last == "new":
             return BTree()
+        if p.startswith(("std::collections::HashMap", "std::collections::hash::map::HashMap", "hashbrown::map::HashMap")) and last in ("new", "with_capacity"):
+            return HMap()
         if p == "std::default::Default::default":
             ty = H.strip(n)[4] or ""
             if ty.startswith("std::vec::Vec"):
@@ -1025,6 +1051,35 @@ class Mini:
             r = self.try_from(m["gargs"], recv, swap=False)
             if r is not None:
                 return r
+        if p.startswith(("std::collections::HashMap", "std::collections::hash::map::HashMap", "hashbrown::map::HashMap")):
+            if not isinstance(recv, HMap):
+                raise Unsupported("HashMap receiver")
+            if nm == "insert":
+                k = HMap.key(args[0])
+                old = recv.d.get(k)
+                had = k in recv.d
+                recv.d[k] = args[1]
+                return ("Some", old) if had else "None"
+            if nm == "get":
+                k = HMap.key(args[0])
+                return ("Some", recv.d[k]) if k in recv.d else "None"
+            if nm == "contains_key":
+                return HMap.key(args[0]) in recv.d
+            if nm == "len":
+                return len(recv.d)
+            if nm == "is_empty":
+                return not recv.d
+            raise Unsupported(f"HashMap::{nm} (order-dependent or unmodelled)")
+        if p.startswith("std::collections::btree::set::BTreeSet") and isinstance(recv, list):
+            # a BTreeSet is modelled by its sorted element list
+            if nm == "is_empty":
+                return not recv
+            if nm == "len":
+                return len(recv)
+            if nm == "contains":
+                return args[0] in recv
+            if nm == "iter":
+                return Iter(list(recv))
         if p.startswith("std::collections::btree::map::BTreeMap"):
             if not isinstance(recv, BTree):
                 raise Unsupported("BTreeMap receiver")
@@ -1085,6 +1140,28 @@ class Mini:
             return all(self.truth(self.apply(args[0], [x])) for x in self.iterate(recv))
         if p == "std::iter::traits::iterator::Iterator::map":
             return ("iter", [self.apply(args[0], [x]) for x in self.iterate(recv)])
+        if p == "std::iter::traits::iterator::Iterator::flat_map":
+            out = []
+            for x in self.iterate(recv):
+                out.extend(self.iterate(self.apply(args[0], [x])))
+            return ("iter", out)
+        if p == "std::iter::traits::iterator::Iterator::chain":
+            return ("iter", self.iterate(recv) + self.iterate(args[0]))
+        if p == "std::iter::traits::iterator::Iterator::filter":
+            return ("iter", [x for x in self.iterate(recv) if self.truth(self.apply(args[0], [x]))])
+        if p == "std::iter::traits::iterator::Iterator::find":
+            for x in self.iterate(recv):
+                if self.truth(self.apply(args[0], [x])):
+                    return ("Some", x)
+            return "None"
+        if p == "std::iter::traits::iterator::Iterator::count":
+            return len(self.iterate(recv))
+        if p.startswith("std::slice::<impl [T]>::") and nm in ("sort_unstable", "sort") and isinstance(recv, list):
+            try:
+                recv.sort()
+            except TypeError:
+                raise Unsupported("sort of abstract values")
+            return ()
         if p == "std::option::Option::<T>::map":
             if recv == "None":
                 return "None"
